@@ -111,6 +111,20 @@ def file_task(task):
                 res = parse(o["stdout"], "json" in v)
                 if res != base[0]:
                     probs.append(("inline " + " ".join(x for x in v if x != text), "inline-differs", f"{res} instead of {base[0]}"))
+        # the same comparison for the content without its final newline (content must be analysed as given)
+        if text.endswith("\n") and not text.startswith("-"):
+            t2 = text[:-1]
+            with open(path, "w") as f:
+                f.write(t2)
+            o1 = impl.run_cli(["--no-colors", path])
+            o2 = impl.run_cli(["--no-colors", flag, t2, "--filename", fname])
+            n += 2
+            if o1["exc"] is None and o2["exc"] is None:
+                r1, r2 = parse(o1["stdout"], False), parse(o2["stdout"], False)
+                if r1 != r2 or o1["code"] != o2["code"]:
+                    probs.append(("inline no-final-newline", "inline-differs", f"file: {r1} exit {o1['code']}; inline: {r2} exit {o2['code']}"))
+            elif (o1["exc"] is None) != (o2["exc"] is None):
+                probs.append(("inline no-final-newline", "inline-differs", f"file exc {o1['exc']}, inline exc {o2['exc']}"))
         return n, probs, (base[0][0][1] if base else None)
     finally:
         shutil.rmtree(d, ignore_errors=True)
